@@ -1,10 +1,11 @@
 (* Sem/UseAssoc.v — model of FORD's USE association (property C06) and the independent Spec.
    Definitions only; proofs are in Sem/UseAssocProofs.v.
 
-   Mirrors (defects included):
+   Mirrors:
      ford/sourceform.py   FortranModule._cleanup            -> own_pub / own_all
-                          FortranCodeUnit.process_attribs   -> public_list
-                          FortranModule.get_used_entities   -> used_entities
+                          FortranCodeUnit.process_attribs   -> public_list / private_list
+                          FortranModule.get_used_entities, renamed_entities
+                                                            -> used_entities / use_hidden
                           FortranCodeUnit.correlate (USE part, should_be_public, filter_public)
                                                             -> use_step / correlate_module
      ford/fortran_project.py  find_used_modules             -> find_module (first module of that name)
@@ -328,7 +329,7 @@ Definition nested_lower_spec (c : cls) (g : graph) (M : module) (S : nscope) : l
   else fold_left (fun acc H => layer acc (map d_name (s_decls H)) (nested_imports c g M H))
                  (hosts M S) (scope c g M).
 
-(* ------------------------------------------------------------------ comparison, wf, regions *)
+(* ------------------------------------------------------------------ comparison, wf *)
 
 Fixpoint functional_b (l : list (str * ent)) : bool :=
   match l with
